@@ -2435,7 +2435,7 @@ impl TxParticipant {
         );
 
         // Store prepared state with undo log and checksums
-        self.prepared.write().insert(
+        let replaced = self.prepared.write().insert(
             request.tx_id,
             PreparedTx {
                 tx_id: request.tx_id,
@@ -2447,6 +2447,16 @@ impl TxParticipant {
                 undo_checksums,
             },
         );
+
+        // A repeated prepare locks again under a new handle. Keys that only the
+        // earlier request named are still held under the earlier handle, which
+        // the record no longer remembers: release them now, or they outlive the
+        // transaction's commit/abort.
+        if let Some(earlier) = replaced {
+            if earlier.lock_handle != lock_handle {
+                self.locks.release_by_handle(earlier.lock_handle);
+            }
+        }
 
         tracing::debug!(
             tx_id = request.tx_id,
